@@ -12,7 +12,7 @@ ID = "C05"
 LEVEL = "exploration"
 N_QUICK, N_THOROUGH = 100000, 3000000
 T_QUICK, T_THOROUGH = 70, 1500
-FORMS = ["plain", "plain", "plain", "kwargs", "nd_c", "nd_f", "nd_strided", "nd_obj", "xobj_same", "xobj_other", "nested_xobj"]
+FORMS = ["plain", "plain", "plain", "kwargs", "nd_c", "nd_f", "nd_strided", "nd_swapped", "nd_obj", "xobj_same", "xobj_other", "nested_xobj"]
 FLOORS = {"objects_decoded": 4000, "parts_checked": 100000, "seen:st": 1000, "seen:str": 500, "seen:ref": 300,
           "seen:ur": 200, "seen:ar2doD": 20, "seen:ar2dS": 100, "seen:ar3soS": 20, "nonnull_refs_decoded": 300,
           "null_refs_decoded": 100, "strides_checked": 100, "decodes_after_assignment": 3000,
